@@ -517,6 +517,9 @@ static void c18_acf(vr_rng *r)
                 double var = 0, mm = 0; for (size_t k = 0; k < n; k++) mm += a * x[k] + b; mm /= (double)n; for (size_t k = 0; k < n; k++) var += (a * x[k] + b - mm) * (a * x[k] + b - mm); var /= (double)(n - 1);
                 bool allzero = true; for (unsigned z = 1; z <= lags; z++) if (acf2[z] != 0.0) allzero = false;
                 vr_violation(allzero && var < 1e-9 ? "C18/acf-scale/var<1e-9-rounded-to-zero" : "C18/acf-scale/changed", "ACF[%u] changed from %.10g to %.10g under x -> %g*x + %g (n=%zu, variance of scaled data %.3g)", l, acf[l], acf2[l], a, b, n, var); break; }
+            /* Durbin-Levinson on this (not positive semi-definite) ACF estimator can be arbitrarily ill-conditioned: |PACF| > 1 marks such a case, where rounding noise dominates and nothing is compared */
+            bool wellcond = true; for (unsigned z = 1; z <= l; z++) if (!(fabs(pacf[z]) <= 1.0)) wellcond = false;
+            if (!wellcond) { VR_CNT("pacf_ill_conditioned_skipped"); break; }
             if (fabs(pacf2[l] - pacf[l]) > 1e-6 * (1 + fabs(pacf[l]))) { vr_violation("C18/pacf-scale", "PACF[%u] changed from %.10g to %.10g under x -> %g*x + %g", l, pacf[l], pacf2[l], a, b); break; }
         }
         VR_CNT("acf_scale_relations");
